@@ -54,6 +54,8 @@ class Stats:
 
     def fail(self, key, clause, function, witness, observed, required):
         size = len(json.dumps(witness, default=str))
+        if "lib" in witness["case"]["program"]:
+            size += 5000      # prefer witnesses whose program is written out over library constructor calls
         old = self.failures.get(key)
         if old is None or size < old["_size"]:
             self.failures[key] = {"key": key, "clause": clause, "function": function, "witness": witness,
@@ -595,7 +597,7 @@ def main(argv=None):
          "bound": bound + f"; {n['copy-events']} outermost copy() calls observed", "evaluations": n["sequence-checks"] + n["objects-disjoint"]},
         {"function": "CircuitCompositeOperation.copy / add_sub_circuit",
          "contract": "clause 'same schedule relative to its own start': own evaluation of the relation equations over the link fields (sub-circuit link handed "
-                     "down virtually; composite duration by the library's first-level / leaf definition, C04 judged elsewhere) gives the same (start - earliest "
+                     "down virtually; a sub-circuit's duration = span of everything it contains, as C04 states) gives the same (start - earliest "
                      "start, duration) for every operation and sub-circuit; additionally the library's fresh start_time / duration / total duration of both sides agree",
          "bound": bound, "evaluations": n["schedule-evaluated"] + n["schedule-reported"]},
         {"function": "CircuitCompositeOperation.repeat",
@@ -620,7 +622,9 @@ def main(argv=None):
         {"assumption": f"copy() monitors installed on {L().monitored_classes} classes; every explicit / add action was observed as an outermost copy() call "
                        f"({pr['action_events']} action events); positional fallback used {n['positional-fallback']} times", "ok": pr["action_events"] > 0},
         {"assumption": f"own evaluator equals the library's fresh report (relative) on unread-or-read originals without own relation: "
-                       f"{pr['oracle_vs_library_checked']} checked, {pr['oracle_vs_library_mismatch']} mismatches", "ok": pr["oracle_vs_library_mismatch"] == 0},
+                       f"{pr['oracle_vs_library_checked']} checked, {pr['oracle_vs_library_mismatch']} mismatches (the evaluator takes a sub-circuit's duration as the span "
+                       f"of everything it contains; a library whose composite duration looks only at first-level starts and leaf ends, C04, mismatches here)",
+         "ok": pr["oracle_vs_library_mismatch"] == 0},
         {"assumption": f"OUTSIDE the statement (not an internal relation), observed only: add_sub_circuit drops the added circuit's OWN relation to an operation of the "
                        f"enclosing circuit ({pr['own_relation_of_added_circuit_dropped']} of {pr['own_relation_of_added_circuit']} cases; the lookup passed to copy holds only "
                        f"{{added circuit: enclosing circuit}}), the copy is then placed after the latest operation on its channels", "ok": True},
@@ -629,7 +633,7 @@ def main(argv=None):
         {"assumption": f"OUTSIDE the statement (C07), observed only: measurements of an explicit copy() keep the ORIGINAL circuit as acquisition registry "
                        f"({pr['explicit_copy_registry_points_at_original']} of {pr['explicit_copy_measurements']}) and therefore report index -1", "ok": True},
         {"assumption": f"library-reported schedule comparison skipped when a root link is JOINED_END (hand-down is not a uniform shift): {pr['reported_skipped_joined_end_root']} cases; "
-                       f"consequences of an already reported channel deviation not reported separately: {n['derived-not-reported']}", "ok": True},
+                       f"consequences of an already recorded deviation of the same copy (changed listing order, changed schedule, relation added after a channel change) counted, not reported under a second key: {n['derived-not-reported']}", "ok": True},
     ]
     for f in total.failures.values():
         f.pop("_size", None)
